@@ -56,6 +56,11 @@ def run(ctx):
         _bn = {m.base: m for m in facts.fns if m.config == cfg and m.cls == _c02.CLS and not m.rec.get("ctor") and not m.rec.get("dtor")}
         _c02.check_r4(_Renamed(ctx, "C02.R4", "C03.R9-cap-"), _bn, strict=True)
         queue_kind_tables(ctx, facts, cfg)
+        # nothing but the documented hold-back keeps an accepted statement in its queue: only a timestamp later than 'now - grace period'
+        # of a non-user clock does, and only until time has passed (= C05.R2); the read position handed back after a node switch is the
+        # new node's (= C20.R4)
+        from rules import c05 as _c05
+        _c05.r2(_Renamed(ctx, "C05.R2", "C03.R13"), facts, cfg)
         if cfg == "A":
             # a statement made with run-time source metadata is turned into an ordinary Log event on every path of the decoder, whatever
             # its template looks like: no other kind of statement event is dispatched to the sinks (= C12.R9a)
